@@ -17,6 +17,7 @@ import (
 // C02: file handles behave like os.File.
 
 type c02case struct {
+	Path    string     `json:"path,omitempty"` // the file the script works on: "f" (exists) or "n" (created by the first Open)
 	Name    string     `json:"name"`
 	Subject string     `json:"subject"`
 	Init    string     `json:"init"` // initial contents of "f"
@@ -30,7 +31,17 @@ var c02kinds = map[string]int{
 }
 var c02kindNames = []string{"ro", "wo", "rw", "wo+app", "rw+app", "rw+trunc", "wo+creat", "ro+trunc", "dir"}
 
+// kinds whose Open creates the file (path "n" does not exist before)
+var c02newKinds = map[string]int{
+	"new:rw+creat+app": os.O_RDWR | os.O_CREATE | os.O_APPEND, "new:wo+creat+app": os.O_WRONLY | os.O_CREATE | os.O_APPEND,
+	"new:rw+creat+excl": os.O_RDWR | os.O_CREATE | os.O_EXCL, "new:rw+creat+trunc": os.O_RDWR | os.O_CREATE | os.O_TRUNC,
+}
+var c02newKindNames = []string{"new:rw+creat+app", "new:wo+creat+app", "new:rw+creat+excl", "new:rw+creat+trunc"}
+
 func c02open(slot int, kind string) fsx.Step {
+	if fl, ok := c02newKinds[kind]; ok {
+		return fsx.Step{K: "Open", P: "n", Flag: fl, Perm: 0o644, Slot: slot}
+	}
 	if kind == "dir" {
 		return fsx.Step{K: "Open", P: "d", Flag: os.O_RDONLY, Slot: slot}
 	}
@@ -64,6 +75,16 @@ var c02matrix []c02case
 func c02build() {
 	c02once.Do(func() {
 		const init = "0123456789"
+		for _, kind := range c02newKindNames {
+			// the handle creates the file, fills it, moves back, and then the call under test runs (also after another handle extended the file)
+			fill := []fsx.Step{c02open(0, kind), {K: "H.Write", Slot: 0, Data: init}, {K: "H.Seek", Slot: 0, Off: 3, Whence: io.SeekStart}}
+			other := fsx.Step{K: "Open", P: "n", Flag: os.O_RDWR, Slot: 1}
+			for _, op := range c02ops(0, len(init)) {
+				c02matrix = append(c02matrix, c02case{Path: "n", Name: kind + "/" + op.K, Subject: "mem", Steps: append(append([]fsx.Step(nil), fill...), op, fsx.Step{K: "H.Stat", Slot: 0})})
+				c02matrix = append(c02matrix, c02case{Path: "n", Name: kind + "/" + op.K + "/single", Subject: "kvplain", Steps: append(append([]fsx.Step(nil), fill...), op)})
+				c02matrix = append(c02matrix, c02case{Path: "n", Name: kind + "/" + op.K + "/other-grew", Subject: "mem", Steps: append(append([]fsx.Step(nil), fill...), other, fsx.Step{K: "H.WriteAt", Slot: 1, Data: "GROWN", Off: 10}, op, fsx.Step{K: "H.Stat", Slot: 0})})
+			}
+		}
 		for _, kind := range c02kindNames {
 			for _, op := range c02ops(0, len(init)) {
 				// (a) fresh handle moved to offset 3, (b) the same after another handle grew the file, (c) after another handle shrank it
@@ -126,8 +147,20 @@ func c02random(env *core.Env, idx int) c02case {
 		}
 		return k
 	}
+	cs.Path = "f"
+	if r.Intn(4) == 0 {
+		cs.Path = "n" // the first handle creates the file
+	}
 	for s := 0; s < nh; s++ {
-		cs.Steps = append(cs.Steps, c02open(s, kind()))
+		k := kind()
+		st := c02open(s, k)
+		if cs.Path == "n" && k != "dir" {
+			st.P = "n"
+			if s == 0 {
+				st.Flag |= os.O_CREATE
+			}
+		}
+		cs.Steps = append(cs.Steps, st)
 	}
 	n := 5 + r.Intn(env.Pick(36, 76))
 	off := func() int64 {
@@ -180,6 +213,9 @@ func c02random(env *core.Env, idx int) c02case {
 			st = fsx.Step{K: "H.Close"}
 		default:
 			st = c02open(slot, kind())
+			if cs.Path == "n" && st.P == "f" {
+				st.P = "n"
+			}
 		}
 		st.Slot = slot
 		cs.Steps = append(cs.Steps, st)
@@ -226,6 +262,10 @@ func c02run(env *core.Env, idx int) core.CaseResult {
 			return res
 		}
 	}
+	path := cs.Path
+	if path == "" {
+		path = "f"
+	}
 	kinds := map[int]string{}     // slot -> handle kind
 	closed := map[int]bool{}      // slot -> closed
 	lastWriter := -1              // slot that last changed the file
@@ -246,7 +286,7 @@ func c02run(env *core.Env, idx int) core.CaseResult {
 		}
 		// situation: handle kind, argument class relative to the reference's size and offset
 		refSize, refOff := int64(-1), int64(-1)
-		if info, err := hackpadfs.Stat(R.fs, "f"); err == nil {
+		if info, err := hackpadfs.Stat(R.fs, path); err == nil {
 			refSize = info.Size()
 		}
 		if f := R.hs.F; st.Slot < len(f) && f[st.Slot] != nil && kind != "dir" && st.K != "Open" {
@@ -384,8 +424,8 @@ func c02run(env *core.Env, idx int) core.CaseResult {
 			}
 		}
 		// after every call: fresh contents, and every open handle's offset
-		rb, rerr := hackpadfs.ReadFile(R.fs, "f")
-		sb, serr := hackpadfs.ReadFile(S.fs, "f")
+		rb, rerr := hackpadfs.ReadFile(R.fs, path)
+		sb, serr := hackpadfs.ReadFile(S.fs, path)
 		if (rerr == nil) != (serr == nil) || string(rb) != string(sb) {
 			if !diverged {
 				bad("content", fmt.Sprintf("file holds %d bytes %q, os holds %d bytes %q", len(sb), clip60(string(sb)), len(rb), clip60(string(rb))))
